@@ -90,6 +90,7 @@ func execHist(a []string) (string, string) {
 	var env *sessEnv
 	var tr *bmc.V2SessionlessTransport
 	var slScript []string
+	slCancelInSleep := false
 	slPos := 0
 	var slCancel context.CancelFunc
 	recv := make([]byte, 512)
@@ -108,6 +109,8 @@ func execHist(a []string) (string, string) {
 			cmdNo = 0x3c
 		}
 		var items []string
+		cancelInSleep := strings.HasSuffix(letters, "K")
+		letters = strings.TrimSuffix(letters, "K")
 		for i, l := range letters {
 			if l == 'L' {
 				items = append(items, "L")
@@ -153,7 +156,7 @@ func execHist(a []string) (string, string) {
 		}
 		lostEnd := consumed > 0 && letters[consumed-1] == 'L' && inSession
 		runs := consumed
-		if !okCall && !lostEnd {
+		if !okCall && !lostEnd && !cancelInSleep {
 			runs++ // the run of the closure during which the context expired
 		}
 		if runs > 1 {
@@ -185,6 +188,7 @@ func execHist(a []string) (string, string) {
 			slScript, slPos = items, 0
 			ctx, cancel := context.WithTimeout(context.Background(), 10*time.Second)
 			slCancel = cancel
+			slCancelInSleep = cancelInSleep && !okCall
 			c := &namedCmd{rawCmd: rawCmd{op: ipmi.Operation{Function: ipmi.NetworkFunction(fn), Command: ipmi.CommandNumber(cmdNo)}}, name: name, fail: name == "rawfail"}
 			_, err = tr.SendCommand(ctx, c)
 			cancel()
@@ -193,6 +197,11 @@ func execHist(a []string) (string, string) {
 	}
 	slSend := func(_ context.Context, p []byte) ([]byte, error) {
 		sendCalls++
+		if slCancelInSleep && slPos == len(slScript)-1 {
+			// the last scripted attempt: the caller gives up 15 ms from now, i.e. during the 60 ms back-off sleep that follows
+			c := slCancel
+			time.AfterFunc(15*time.Millisecond, func() { c() })
+		}
 		if slPos >= len(slScript) {
 			slCancel()
 			return nil, context.Canceled
@@ -210,7 +219,7 @@ func execHist(a []string) (string, string) {
 		case "D":
 			e.connA++
 			e.connO++
-			tr = bmc.VerifNewV2SessionlessTransport(slSend, 50*time.Millisecond, &backoff.ZeroBackOff{})
+			tr = bmc.VerifNewV2SessionlessTransport(slSend, 50*time.Millisecond, &switchBackOff{on: &slCancelInSleep})
 		case "X":
 			e.connA++
 			e.connF++
@@ -321,6 +330,17 @@ func execHist(a []string) (string, string) {
 	return out, ""
 }
 
+// switchBackOff: no waiting normally; a 60 ms interval while a "cancelled during the back-off sleep" command runs
+type switchBackOff struct{ on *bool }
+
+func (b *switchBackOff) NextBackOff() time.Duration {
+	if *b.on {
+		return 60 * time.Millisecond
+	}
+	return 0
+}
+func (b *switchBackOff) Reset() {}
+
 func nz(m map[string]int) map[string]int {
 	o := map[string]int{}
 	for k, v := range m {
@@ -387,6 +407,14 @@ func genHist(g *genCtx) {
 				s := script(5)
 				evs = append(evs, "c:"+names[g.rng.Intn(3)]+":"+s)
 				hasRetry = hasRetry || len(s) > 1
+			case k >= 9 && dialled && g.rng.Intn(5) == 0:
+				// every attempt unacceptable, then the caller's context ends during the back-off sleep
+				b := make([]byte, 1+g.rng.Intn(3))
+				for i := range b {
+					b[i] = "BTXG"[g.rng.Intn(4)]
+				}
+				evs = append(evs, "l:"+names[g.rng.Intn(3)]+":"+string(b)+"K")
+				hasRetry = hasRetry || len(b) > 1
 			case k >= 9 && dialled:
 				s := script(5)
 				evs = append(evs, "l:"+names[g.rng.Intn(3)]+":"+s)
